@@ -217,6 +217,15 @@ impl Explorer {
         }
         let mut r = r;
         if let (Some(p), Some(f)) = (r.panic.as_ref(), self.panic_to_violation) { let v = f(p, &format!("scenario {}", &sc.name[..sc.name.len().min(60)])); if !v.sig.ends_with("not-a-C20-verdict") { r.violations.push(v); } }
+        if let Some(p) = r.panic.as_ref() {
+            // a panic whose location lies in the harness itself (relative path src/...) is a machinery failure, never a verdict
+            let loc = p.rsplit(" @ ").next().unwrap_or("");
+            if loc.starts_with("src/") {
+                let mut m = self.stats.machinery_error.lock().unwrap();
+                if m.is_none() { *m = Some(format!("the harness panicked in scenario {}: {} (choices {:?})", sc.name, p, ch.taken)); }
+                self.stats.stop.store(true, Ordering::Relaxed);
+            }
+        }
         if let Some(p) = r.panic {
             local.panics += 1;
             let mut ps = self.stats.panic_samples.lock().unwrap();
